@@ -429,6 +429,7 @@ type FuncContract struct {
 	Pure     bool // body is its own contract: inlined at call sites
 	Sweep    bool // no-panic sweep
 	Trusted  bool // contract assumed, body not checked
+	Transparent bool // swept only: callers keep seeing the body (inlined or summarised) exactly as if it had no contract
 	Functional bool // result is a function of the arguments alone (reads only immutable data): calls are modelled by an uninterpreted function
 	Recovers string
 	Panics   []string // allowed explicit panic types
@@ -443,6 +444,12 @@ type FuncContract struct {
 	Extra    map[string][]string
 	File     string
 	Line     int
+}
+
+// IsTransparent: the block asks for a sweep of the body and states nothing a caller could use or would have to establish.
+func (c *FuncContract) IsTransparent() bool {
+	return c != nil && c.Transparent && len(c.Props) == 0 && len(c.Requires) == 0 && len(c.Ensures) == 0 && len(c.Assigns) == 0 &&
+		!c.Pure && !c.Trusted && !c.Functional && c.Measure == nil && c.Recovers == ""
 }
 
 type GuardSpec struct {
@@ -477,7 +484,7 @@ var lastResRe = regexp.MustCompile(`lastresult\("([^"]+)"\)`)
 var clauseKeywords = map[string]bool{
 	"spec": true, "rec": true, "axiom": true, "lemma": true, "func": true, "props": true,
 	"requires": true, "ensures": true, "loop": true, "assigns": true, "pure": true, "sweep": true,
-	"trusted": true, "end": true, "at": true, "functional": true, "typeinv": true, "unchecked": true, "default-nonnil": true, "guarded": true, "lock-exempt": true, "lock-entry": true, "frozen": true, "frozen-field": true, "recovers": true, "panics": true, "measure": true, "use": true, "opt": true,
+	"trusted": true, "end": true, "at": true, "functional": true, "typeinv": true, "unchecked": true, "default-nonnil": true, "guarded": true, "lock-exempt": true, "lock-entry": true, "frozen": true, "frozen-field": true, "recovers": true, "panics": true, "measure": true, "use": true, "opt": true, "transparent": true,
 }
 
 func parseParams(s string) ([]SpecParam, error) {
@@ -745,6 +752,8 @@ func (cs *ContractSet) ParseContractText(pkgPath, file, text string) error {
 				}
 			case "trusted":
 				cur.Trusted = true
+			case "transparent":
+				cur.Transparent = true
 			case "functional":
 				cur.Functional = true
 			case "recovers":
